@@ -1216,6 +1216,12 @@ def fixed_cases():
         ("fnkind-in-object-arg", "fn take(o: { f: fn(a: int) -> null }) { } fn main() { take(new { f: print }); }\n", True, "the same as a call argument"),
         ("fnkind-in-object-join", "fn main() { let x = if true { new { f: println } } else { new { f: fn() { } } }; println(x); }\n", True, "the same in joined branches"),
         ("fnkind-nested-return", "fn main() { let f: fn() -> fn() -> null = (?println).unwrap; }\n", True, "function type whose RETURN type differs in parameter kind"),
+        # a string-literal index on a concrete object type names a declared field, never a builtin member
+        ("index-builtin-keys", 'fn main() { let o = new { a: 1 }; let k = o["keys"]; println(k); }\n', True, "index `keys` on an object without such a field"),
+        ("index-builtin-to-json", 'fn main() { let o = new { a: 1 }; println(o["to_json"]); }\n', True, "index `to_json` on an object without such a field"),
+        ("index-builtin-to-json-indent", 'fn main() { let o = new { a: 1 }; let f: fn() -> str = o["to_json_indent"]; println(f()); }\n', True, "index `to_json_indent`"),
+        ("index-declared", 'fn main() { let o = new { kk: 3, a: 1 }; let k: int = o["kk"]; println(k + o["a"]); }\n', False, "declared fields are indexed by string literals"),
+        ("index-unknown", 'fn main() { let o = new { a: 1 }; println(o["nope"]); }\n', True, "index with an unknown field name"),
         # the identifier of a catch block lives in the catch block only
         ("catch-ident-after", 'fn main() { try { throw("x"); } catch e { println(e.message); } println(e.message); }\n', True, "catch identifier used after the try expression"),
         ("catch-ident-after-fn", 'fn f() -> str { let r = try { "a" } catch err { err.message }; err.message }\nfn main() { println(f()); }\n', True, "catch identifier used after the try expression (function tail)"),
@@ -1271,6 +1277,26 @@ def fixed_cases():
          "well-typed match with a diverging first arm: its value is an int"),
         ("match-never-second-ok", 'fn f(a: int) -> int { match a { 0 => 1, 1 => throw("z"), _ => 30 } }\nfn main() { println(f(1)); }\n', False,
          "diverging arm in second position"),
+    ] + _f3_cases()
+
+
+def _f3_cases():
+    return [
+        # F3: a function may not take a name that a value of the module's root scope already has (global, import, builtin):
+        # the analyzer resolves the name to the value, both backends run the function
+        ("F3", "let f = 1;\nfn f() { }\nfn main() { }\n", True, "function named like a global of the module"),
+        ("F3-fn-first", "fn f() { }\nlet f = 1;\nfn main() { }\n", True, "global named like a function defined before it in the source"),
+        ("F3-used", "let f = 1;\nfn f() -> int { 2 }\nfn main() { println(f); }\n", True, "function named like a global, the name is read"),
+        ("F3-main", "fn main() { }\nlet main = 1;\n", True, "global named main"),
+        ("F3-main-first", "let main = 1;\nfn main() { }\n", True, "global named main, before the function"),
+        ("F3-builtin", "fn println(x: int) { }\nfn main() { println(1); }\n", True, "function named like a builtin of the host scope"),
+        ("F3-throw", "fn throw(x: int) -> int { x + 1 }\nfn main() { println(throw(1)); }\n", True, "function named like the builtin throw"),
+        ("F3-import", "import { ping } from net;\nfn ping() { }\nfn main() { }\n", True, "function named like a value imported from a host module"),
+        ("F3-pub", "pub let f = 1;\npub fn f() { }\nfn main() { }\n", True, "pub function named like a pub global"),
+        ("F3-distinct-ok", "let f = 1;\nfn g() { }\nfn main() { g(); println(f); }\n", False, "global and function of different names"),
+        ("F3-local-ok", "fn f() -> int { 1 }\nfn main() { let f = f(); println(f); }\n", False, "a local variable may shadow a function"),
+        ("F3-param-ok", "fn f(f: int) -> int { f + 1 }\nfn main() { println(f(1)); }\n", False, "a parameter may be named like the function"),
+        ("F3-import-ok", "import { ping } from net;\nfn pong() { }\nfn main() { pong(); }\n", False, "imported value and function of different names"),
     ]
 
 
